@@ -15,6 +15,9 @@
 //! pages = number of live allocations with size == align == PAGE_SIZE (counted by the global
 //! allocator), relative to the start of the case.
 //!
+//! `PAR <t> <r>`: t threads use the slab at the same time for r rounds (see `St::par`): `par-ok<items created>`
+//! or `par-bad:<what>`; only FIN may follow (the order of the free list is not determined afterwards).
+//!
 //! Handles are kept as raw pointers (`into_raw`) and rebuilt (`from_raw`) for every operation,
 //! like the pointer-based manager does with its edges.  The harness never touches the slab or
 //! a handle once the data's Drop has run (flag), so that a store that dies too early shows as
@@ -218,6 +221,119 @@ impl<P: Pay, const PS: usize> St<P, PS> {
             }
         }
         (res, ret)
+    }
+    /// `t` threads work on the slab at the same time (the model is sequential: only what every interleaving
+    /// guarantees is checked, here, by the harness): every thread creates items, clones handles (IntHandle
+    /// and ExtHandle), and drops all of them again in another order.  Checked: no two items that are alive
+    /// at the same time share a slot; every payload created here is dropped exactly once (by the thread that
+    /// ends its last handle); num_items afterwards = before; counts seen through `current()` are >= 1.
+    fn par(&mut self, t: usize, rounds: usize) -> String {
+        use std::collections::HashSet;
+        use std::sync::Mutex;
+        let before = self.sl().num_items();
+        let live: Mutex<HashSet<usize>> = Mutex::new(HashSet::new());
+        // slots of the items the script holds
+        for hd in self.hs.iter().flatten() {
+            live.lock().unwrap().insert(hd.ptr.as_ptr() as usize);
+        }
+        let slab_addr = self.slab.as_ptr() as usize;
+        let problems: Mutex<Vec<String>> = Mutex::new(Vec::new());
+        let mut logs: Vec<Vec<String>> = Vec::new();
+        let mut created = 0u64;
+        std::thread::scope(|sc| {
+            let mut joins = Vec::new();
+            for ti in 0..t {
+                let (live, problems) = (&live, &problems);
+                joins.push(sc.spawn(move || {
+                    let slab: &ArcSlab<ArcItem<P>, DataTag, PS> = unsafe { &*(slab_addr as *const ArcSlab<ArcItem<P>, DataTag, PS>) };
+                    let mut rng = Rng::new(0x51ab + ti as u64);
+                    let mut made = 0u64;
+                    for r in 0..rounds {
+                        let k = 1 + rng.below(4) as usize;
+                        let mut ints: Vec<IntHandle<'_, ArcItem<P>, DataTag, PS>> = Vec::new();
+                        let mut exts: Vec<ExtHandle<ArcItem<P>, DataTag, PS>> = Vec::new();
+                        let mut addrs: Vec<usize> = Vec::new();
+                        for j in 0..k {
+                            let v = 1_000_000 + (ti as u64) * 10_000 + (r as u64) * 10 + j as u64;
+                            let h = slab.add_item(ArcItem::new(P::new(v)));
+                            made += 1;
+                            let a = (&*h as *const ArcItem<P>) as usize;
+                            if !live.lock().unwrap().insert(a) {
+                                problems.lock().unwrap().push(format!("slot {a:#x} handed out while its item is alive"));
+                            }
+                            addrs.push(a);
+                            if h.v() != v || h.current() != 1 {
+                                problems.lock().unwrap().push(format!("new item {v}: payload {} count {}", h.v(), h.current()));
+                            }
+                            let c = h.clone();
+                            if rng.chance(1, 2) {
+                                exts.push(ExtHandle::from(c));
+                            } else {
+                                ints.push(c);
+                            }
+                            if rng.chance(1, 3) {
+                                exts.push(ExtHandle::from(h));
+                            } else {
+                                ints.push(h);
+                            }
+                        }
+                        for e in &exts {
+                            if e.current() < 1 || !std::ptr::eq(ExtHandle::slab(e), slab) {
+                                problems.lock().unwrap().push("ExtHandle: count 0 or another slab".to_string());
+                            }
+                        }
+                        // the slots are given back by the drops below: take them out of the set first
+                        for a in addrs {
+                            live.lock().unwrap().remove(&a);
+                        }
+                        if rng.chance(1, 2) {
+                            ints.reverse();
+                        }
+                        while let Some(h) = ints.pop() {
+                            match rng.below(3) {
+                                0 => drop(h),
+                                1 => drop(IntHandle::into_inner(h)),
+                                _ => IntHandle::drop_with(h, drop),
+                            }
+                            if rng.chance(1, 2) {
+                                if let Some(e) = exts.pop() {
+                                    drop(ExtHandle::into_inner(e));
+                                }
+                            }
+                        }
+                        drop(exts);
+                    }
+                    (made, LOG.with(|l| std::mem::take(&mut *l.borrow_mut())))
+                }));
+            }
+            for j in joins {
+                match j.join() {
+                    Ok((made, log)) => {
+                        created += made;
+                        logs.push(log);
+                    }
+                    Err(_) => problems.lock().unwrap().push("a worker thread panicked".to_string()),
+                }
+            }
+        });
+        let mut drops: Vec<String> = logs.into_iter().flatten().collect();
+        let n = drops.len() as u64;
+        drops.sort();
+        drops.dedup();
+        let mut pr = problems.into_inner().unwrap();
+        if n != created || drops.len() as u64 != created {
+            pr.push(format!("{created} items created, {n} drops logged, {} distinct", drops.len()));
+        }
+        if DEAD.with(|d| d.get()) {
+            pr.push("the slab died".to_string());
+        } else if self.sl().num_items() != before {
+            pr.push(format!("num_items {} afterwards, {before} before", self.sl().num_items()));
+        }
+        if pr.is_empty() {
+            format!("par-ok{created}")
+        } else {
+            format!("par-bad:{}", pr.join(";").replace(' ', "_"))
+        }
     }
     /// drops what the client still holds (order: handle variables ascending, raw references,
     /// `ArcSlabRef`s); stops using anything as soon as the data has been dropped
@@ -425,6 +541,7 @@ fn run_case<P: Pay, const PS: usize>(case: &Case, out: &mut dyn FnMut(String)) {
                     Some("u".to_string())
                 }
             }
+            "PAR" => Some(st.par(arg(1) as usize, arg(2) as usize)),
             "FIN" => {
                 st.fin();
                 Some("u".to_string())
@@ -646,6 +763,28 @@ fn gen(tier: &str, seed: u64) {
                 idx[p] = 0;
             }
         }
+    }
+    // (p) threads: a few items held by the script, then 2..4 threads that add / clone / convert / drop at the
+    // same time, then FIN (order-independent guarantees only, checked by the harness)
+    let npar = if thorough { 200 } else { 30 };
+    for i in 0..npar {
+        let (ps, isz) = *rng.pick(&[(32u64, 16u64), (64, 16), (128, 16), (1024, 16), (64, 32), (1024, 32)]);
+        let mut ops: Vec<String> = Vec::new();
+        let nheld = rng.below(5);
+        for h in 0..nheld {
+            ops.push(format!("ADD {h} {}", h + 1));
+        }
+        if nheld > 1 && rng.chance(1, 2) {
+            ops.push("DROP 0".into());
+        }
+        if nheld > 0 && rng.chance(1, 2) {
+            ops.push(format!("EXT {}", nheld - 1));
+        }
+        // (the first cases are small: they are the ones that also run under miri)
+        let (t, r) = if i < 4 { (2, 3) } else { (rng.range(2, 4), *rng.pick(&[5u64, 40, 300])) };
+        ops.push(format!("PAR {t} {r}"));
+        ops.push("FIN".into());
+        emit(ps, isz, &ops);
     }
     // (c) long random scripts: phases that fill / empty, many pages, slot re-use, every layout
     let nrand = if thorough { 12000 } else { 1500 };
